@@ -492,7 +492,7 @@ def _mutate(obj_path, edits):
     owner = getattr(mod, clsname) if clsname else mod
     orig_attr = owner.__dict__[fname]
     fn = orig_attr.__func__ if isinstance(orig_attr, staticmethod) else orig_attr
-    src = textwrap.dedent(inspect.getsource(fn))
+    src = getattr(fn, '_c20_src', None) or textwrap.dedent(inspect.getsource(fn))
     for (old, new, required) in edits:
         if old not in src:
             if required:
@@ -504,6 +504,7 @@ def _mutate(obj_path, edits):
     ns = {}
     exec(compile(src, '<mutant %s>' % fname, 'exec'), mod.__dict__, ns)
     new_fn = ns[fname]
+    new_fn._c20_src = src
     setattr(owner, fname, staticmethod(new_fn) if isinstance(orig_attr, staticmethod) else new_fn)
 
     def undo():
@@ -608,11 +609,11 @@ def radio_shapes(dongles, chans, addrs, rls, rates=RATES):
 
 
 def addr_space(tier, rng):
-    """Address digit strings: every string over {0,1,7,a,E,F,f} up to length 3 (quick: 2), and for each length
+    """Address digit strings: every string over {0,1,7,a,E,F,f} up to length 4 (quick: 2), and for each length
     1..10: E7-style, leading-zero, single-digit-set, alternating-case and random strings."""
     alpha = '017aEFf'
     out = []
-    maxlen = 2 if tier == 'quick' else 3
+    maxlen = 2 if tier == 'quick' else 4
     import itertools
     for k in range(1, maxlen + 1):
         out += [''.join(p) for p in itertools.product(alpha, repeat=k)]
@@ -654,7 +655,7 @@ def build_sessions(tier, rng):
             dk, dn = dongles[k % len(dongles)]
             ops.append({'e': 'parse', 'u': tok(dk=dk, dn=dn, nf=3, chan=c, rate=r, addr=digits(a), rl=rls[k % len(rls)])})
     # --- C. random well-formed radio URIs
-    for _ in range(2000 if quick else 60000):
+    for _ in range(2000 if quick else 300000):
         ops.append({'e': 'parse', 'u': random_radio(rng, env)})
     # malformed / foreign strings through parse_uri as well (not judged by the parse clause; conformance only)
     for w in RADIO_MALFORMS:
@@ -685,10 +686,10 @@ def build_sessions(tier, rng):
         dn_set = [('num', i) for i in range(0, env['nd'] + 1)] + [('serial', i) for i in range(1, env['nd'] + 1)]
         for (dk, dn) in dn_set:
             toks += list(radio_shapes([(dk, dn)], [0, 2, 80, 125] if not quick else [80], [], [(), (100,)]))
-            for a in (addrs[::max(1, len(addrs) // (12 if quick else 150))]):
+            for a in (addrs[::max(1, len(addrs) // (12 if quick else 600))]):
                 toks.append(tok(dk=dk, dn=dn, nf=3, chan=rng.choice([0, 2, 80, 125]), rate=rng.choice(RATES),
                                 addr=digits(a), rl=rng.choice([(), (25,)])))
-        for _ in range(20 if quick else 400):
+        for _ in range(20 if quick else 1500):
             toks.append(random_radio(rng, env))
         ops = []
         for u in toks:
@@ -701,7 +702,7 @@ def build_sessions(tier, rng):
     # --- E. scans
     scan_addrs = [[], DEFAULT_ADDR, [0, 0, 0, 0, 1], [0xE7, 0xE7, 0xE7, 0xE7, 1], [0, 0, 0, 0, 0], [0, 0x0A, 0, 0, 0],
                   [1, 2, 3, 4, 5], [0xFF] * 5, [0x0E, 0x7E, 0x7E, 0x7E, 0x70]]
-    nscan = 24 if quick else 600
+    nscan = 24 if quick else 2000
     ops = []
     for i in range(nscan):
         sa = scan_addrs[i % len(scan_addrs)] if i < 2 * len(scan_addrs) else \
@@ -934,7 +935,7 @@ def main(tier, seed, replay=None):
 
     # 2. spec -> code: TLC behaviours of Uri.tla replayed into the real code, end-of-operation states compared
     t0 = _time.time()
-    nsim = 300 if tier == 'quick' else 5000
+    nsim = 200 if tier == 'quick' else 1500
     rs, behs = tlc.simulate('MC_Uri.tla', 'SIM_Uri.cfg', num=nsim, depth=100, seed=seed % 100000, timeout=1800)
     out.add_tlc('SIM_Uri.cfg (-simulate num=%d)' % nsim, rs)
     sims = [session_from_behaviour(b) for b in behs]
@@ -1002,8 +1003,10 @@ def main(tier, seed, replay=None):
     per = {name: mv[i * len(probe):(i + 1) * len(probe)] for i, name in enumerate(names)}
     base = [v.clause for v in per[None]]
     fixed = [v.clause for v in per['fix_empty_path']]
-    out.sensitivity['patch:fix_empty_path'] = '%d of %d probe operations rejected on the tree as is, %d with the one-line repair applied in memory' % (
-        sum(c != 'ok' for c in base), len(probe), sum(c != 'ok' for c in fixed))
+    out.sensitivity['patch:fix_empty_path'] = ('%d of %d probe operations rejected (%d not explained by the design spec) on the tree as is; '
+                                               '%d rejected (%d not explained) with the one-line repair applied in memory' % (
+        sum(c != 'ok' for c in base), len(probe), sum(v.ndrift for v in per[None]),
+        sum(c != 'ok' for c in fixed), sum(v.ndrift for v in per['fix_empty_path'])))
     for name in sorted(MUTANTS):
         new = sorted({v.clause for v, b in zip(per[name], base) if v.clause != 'ok' and v.clause != b})
         n_new = sum(1 for v, b in zip(per[name], base) if v.clause != 'ok' and v.clause != b)
